@@ -18,7 +18,7 @@ class _HashableDict(object):
     def __init__(self, obj):
         self.keys = tuple(sorted(obj))
         self.values = tuple(_hashable(obj[k]) for k in self.keys)
-        self.hash = hash((_HashableDict,) + self.keys, self.values)
+        self.hash = hash(((_HashableDict,) + self.keys, self.values))
 
     def __hash__(self):
         return self.hash
